@@ -16,6 +16,7 @@ import (
 	"os"
 	"os/exec"
 	"path/filepath"
+	"regexp"
 	"sort"
 	"strings"
 	"sync"
@@ -223,7 +224,8 @@ func short(err error) string {
 	if i := strings.IndexAny(s, "\n"); i >= 0 {
 		s = s[:i]
 	}
-	// strip scratch paths so that outcome classes are stable
+	// strip scratch paths and time stamps so that outcome classes are stable
+	s = reStamp.ReplaceAllString(s, "")
 	s = strings.ReplaceAll(s, tmp, "<tmp>")
 	for {
 		i := strings.Index(s, "<tmp>/")
@@ -241,6 +243,8 @@ func short(err error) string {
 	}
 	return s
 }
+
+var reStamp = regexp.MustCompile(` ?\[\d{4}-\d\d-\d\d [^\]]*\]`)
 
 var seq int64
 
@@ -290,7 +294,7 @@ func signedOK(c sigCase, err error) bool {
 		}
 		run.Outcome("refused:" + c.Fmt + ":" + short(err))
 		tally("cases:"+c.Fmt, "refused", 1)
-		tally("refusals", c.Fmt+" key="+c.Key+" digest="+c.Hash+" flags="+c.flagKey()+": "+short(err), 1)
+		tally("refusals", c.Fmt+" "+keyType(c.Key)+" digest="+c.Hash+": "+short(err), 1)
 		return false
 	}
 	tally("cases:"+c.Fmt, "signed", 1)
@@ -348,9 +352,9 @@ func relicAccepts(c sigCase, path string, content string) bool {
 		}
 		run.Outcome("precondition-failed:relic-rejects-own-output:" + c.Fmt + ":" + msg)
 		tally("cases:"+c.Fmt, "relic-rejects-own-output(C01 matter)", 1)
-		fam := c.Shape
-		if i := strings.IndexAny(fam, ":/"); i > 0 {
-			fam = fam[:i]
+		fam := "*"
+		if i := strings.IndexAny(c.Shape, ":/"); i > 0 {
+			fam = c.Shape[:i]
 		}
 		tally("precondition_failures", c.Fmt+"["+fam+"] flags="+c.flagKey()+": "+msg, 1)
 		return false
